@@ -516,7 +516,7 @@ func checkC14(c *Ctx) {
 	for k, v := range kinds {
 		c.Analysed["decisions_"+k] = v
 	}
-	c.MinCount("SYM", 18)
+	c.MinCount("SYM", 6)
 	ruleSymDead(c, s)
 	_ = ssa.Function{}
 }
